@@ -888,3 +888,118 @@ def r14_5_keyword_flow(ctx, rule: str = 'R14.5') -> List[Ob]:
                         obs.append(violation(rule, title, f.loc(n), key=f"{_fn(f)}::{t_.name}::dropped:kwargs",
                                              detail=f"call `{ast.unparse(n)[:100]}` forwards neither **kwargs nor MRTS="))
     return obs
+
+
+# ======================================================================================
+# the profile object is built from the kernel's arrays as they are returned
+# ======================================================================================
+FUNCTION_CLASSES = ('PieceWiseConstFunc', 'PieceWiseLinFunc', 'DiscreteFunc')
+_MUTATORS = {'sort', 'resize', 'put', 'fill', 'itemset', 'partition', 'setfield', 'byteswap', 'append', 'extend', 'insert', 'pop',
+             'remove', 'reverse', 'clear'}
+
+
+def r_profile_from_kernel(ctx, rule: str, modules: Optional[Tuple[str, ...]] = None) -> List[Ob]:
+    """A bivariate profile function hands the arrays its kernel returns to the function class unchanged: the layout
+    of those arrays (edge entries at both ends of a discrete profile, one value per interval of a piecewise profile)
+    is what integral / avrg / add / evaluation of the class are written against; an entry dropped, a slice or a
+    re-ordering between the kernel and the constructor changes every result derived from the profile."""
+    wm = wrapper_model(ctx)
+    repo = wm.repo
+    mods = modules or ('pyspike.isi_distance', 'pyspike.spike_distance', 'pyspike.spike_sync', 'pyspike.spike_directionality')
+    obs: List[Ob] = []
+    found: Dict[str, int] = {m: 0 for m in mods}
+    for fi in repo.all_functions(pyx=False):
+        if fi.module not in mods:
+            continue
+        rets = [n for n in ast.walk(fi.node) if isinstance(n, ast.Return) and isinstance(n.value, ast.Call)
+                and isinstance(n.value.func, ast.Name) and n.value.func.id in FUNCTION_CLASSES]
+        calls = kernel_calls(wm, fi)
+        if not rets or not calls:
+            continue
+        fn = _fn(fi)
+        found[fi.module] += 1
+        par = {}
+        for n in ast.walk(fi.node):
+            for c in ast.iter_child_nodes(n):
+                par[c] = n
+        binds = []
+        shape_problem = None
+        for call, _s, _ks in calls:
+            p = par.get(call)
+            if isinstance(p, ast.Assign) and p.value is call and len(p.targets) == 1:
+                t = p.targets[0]
+                if isinstance(t, ast.Tuple) and all(isinstance(e, ast.Name) for e in t.elts):
+                    binds.append((p, tuple(e.id for e in t.elts), False))
+                    continue
+                if isinstance(t, ast.Name):
+                    binds.append((p, (t.id,), True))
+                    continue
+            shape_problem = f"the result of `{ast.unparse(call)[:60]}` is not bound to names"
+        t_all = f"{fi.name} ({fi.path}): the profile object is constructed from the arrays of the kernel call exactly as returned"
+        if shape_problem or not binds or len({b[1:] for b in binds}) != 1:
+            obs.append(inconclusive(rule, t_all, fi.loc(), shape_problem or 'kernel calls bind different names', construct=fn))
+            continue
+        names, packed = binds[0][1], binds[0][2]
+        bind_nodes = {id(b[0]) for b in binds}
+        # single-assignment aliases  x = times
+        alias: Dict[str, str] = {}
+        for n in ast.walk(fi.node):
+            if isinstance(n, ast.Assign) and len(n.targets) == 1 and isinstance(n.targets[0], ast.Name) and isinstance(n.value, ast.Name) \
+                    and n.value.id in names and n.targets[0].id not in names:
+                alias[n.targets[0].id] = n.value.id
+        bad = False
+        for nm in names:
+            for n in ast.walk(fi.node):
+                where = None
+                if isinstance(n, ast.Name) and n.id == nm and isinstance(n.ctx, (ast.Store, ast.Del)):
+                    q = par.get(n)
+                    while q is not None and not isinstance(q, ast.stmt):
+                        q = par.get(q)
+                    if id(q) in bind_nodes:
+                        continue
+                    where, what = n, f"`{nm}` is bound again (`{ast.unparse(q)[:80]}`)"
+                elif isinstance(n, ast.Subscript) and isinstance(n.ctx, (ast.Store, ast.Del)) and isinstance(n.value, ast.Name) and n.value.id == nm:
+                    where, what = n, f"an element of `{nm}` is overwritten"
+                elif isinstance(n, ast.Call) and isinstance(n.func, ast.Attribute) and isinstance(n.func.value, ast.Name) \
+                        and n.func.value.id == nm and n.func.attr in _MUTATORS:
+                    where, what = n, f"`{nm}.{n.func.attr}(...)` changes the array in place"
+                if where is not None:
+                    bad = True
+                    obs.append(violation(rule, t_all, fi.loc(where), key=f"{fn}::kernel-result-changed::{nm}",
+                                         detail=f"{what} between the kernel call and the constructor: the class methods (integral, avrg, add, "
+                                                f"evaluation) are written against the layout the kernel produces"))
+        for r in rets:
+            cargs = r.value.args
+            if r.value.keywords:
+                kw = {k.arg: k.value for k in r.value.keywords}
+            else:
+                kw = {}
+            if packed:
+                good = len(cargs) == 1 and isinstance(cargs[0], ast.Starred) and isinstance(cargs[0].value, ast.Name) \
+                    and alias.get(cargs[0].value.id, cargs[0].value.id) == names[0] and not kw
+                want = f"*{names[0]}"
+            else:
+                got = [alias.get(a.id, a.id) if isinstance(a, ast.Name) else None for a in cargs]
+                good = got == list(names) and not kw
+                want = ', '.join(names)
+            if good:
+                if not bad:
+                    obs.append(ok(rule, t_all, fi.loc(r), construct=f"{fn}::ctor::L{r.lineno}", detail=f"{r.value.func.id}({want})"))
+                continue
+            # an argument that computes on a kernel array (slice, arithmetic, call) or another order: violation; unknown names: undecided
+            mentions = [a for a in list(cargs) + list(kw.values())
+                        if not isinstance(a, ast.Name) and any(isinstance(x, ast.Name) and alias.get(x.id, x.id) in names for x in ast.walk(a))]
+            plain = [alias.get(a.id, a.id) for a in cargs if isinstance(a, ast.Name)]
+            if mentions or (len(plain) == len(cargs) == len(names) and set(plain) == set(names)):
+                obs.append(violation(rule, t_all, fi.loc(r), key=f"{fn}::ctor-args",
+                                     detail=f"`{ast.unparse(r.value)[:100]}`; expected {r.value.func.id}({want})"))
+            else:
+                obs.append(inconclusive(rule, t_all, fi.loc(r), f"`{ast.unparse(r.value)[:100]}`: arguments are not the names bound by the "
+                                                                 f"kernel call ({want})", construct=f"{fn}::ctor"))
+    t = "bivariate profile functions (kernel call + function-class constructor) are found in each measure's module"
+    missing = [m for m, k in found.items() if k == 0]
+    if missing:
+        obs.append(inconclusive(rule, t, 'pyspike', f"none recognised in {missing}", construct='profile-ctor::found'))
+    else:
+        obs.append(ok(rule, t, 'pyspike', construct='profile-ctor::found', detail=str(found)))
+    return obs
